@@ -491,3 +491,20 @@ func oracle(run *vk.Run, rng *rand.Rand) {
 	run.Add("oracle_disagreements", len(norms))
 	run.Sample(map[string]interface{}{"generator": "oracle", "name": recs[len(recs)/2].(orec).Name, "text": string(inputs[len(recs)/2])})
 }
+
+// HostileInputs returns TLC-generated armor texts (every reject edge of the armor grammar) for C14.
+func HostileInputs(run *vk.Run) [][]byte {
+	cfg := readCfg(run.Seed, set("ws1"), set("BEGIN"), set("full"), set("short3"), set("END"), set("ws1"), set(allBad...), set("END", "full", "garbage"), 1, 2, 1, 2)
+	res := run.TLC("armor-grammar", vk.TLCOpts{Module: "ArmorGen", Config: cfg, Workers: 16})
+	if res.Violated != "" || !res.OK {
+		vk.Infra("ArmorGen: %s\n%s", res.Violated, res.Output)
+	}
+	var out [][]byte
+	for _, l := range res.PrintsWithPrefix("CASE ") {
+		var c rcase
+		if json.Unmarshal([]byte(l), &c) == nil {
+			out = append(out, vk.Bytes(c.Input))
+		}
+	}
+	return out
+}
